@@ -8,6 +8,7 @@ import (
 	"path/filepath"
 	"regexp"
 	"sort"
+	"strconv"
 	"strings"
 	"verifh/ref/rpar2"
 
@@ -30,6 +31,8 @@ type p2Case struct {
 	AutoPrune   bool          `json:"autoprune,omitempty"`  // C16: delete recovery files so that exactly as many blocks remain as slices are unfindable
 	PriorGen    int           `json:"priorgen,omitempty"`   // history inside the process: first Verify (1) or Repair (2) another generation of the same set (same names, lengths, first 16 KiB, hence the same file ids and set id; other content)
 	RecDamaged  bool          `json:"recdamaged,omitempty"` // C03: a recovery file was damaged (not as Create wrote it): Verify may refuse with an error, but a verdict must count exactly the blocks that are still intact
+	Stale       int           `json:"stale,omitempty"`      // beside every recovery file s.volAA+BB.par2 lies s.volAA+<BB+2>.par2 (1) / s.vol<AA-1>+<BB+1>.par2 (2), a volume of ANOTHER set (other content, other set id) whose announced range covers it
+	List        int           `json:"list,omitempty"`       // directory listing order: 0 as the filesystem returns it (sorted), 1 descending
 	DiskTwin    bool          `json:"disktwin,omitempty"`   // additionally run the same directory through the exported API on a real directory and require the same observations
 }
 
@@ -75,6 +78,31 @@ func runP2(c *p2Case, r *core.Rec, cl p2Clauses) *p2Run {
 	}
 	for i, e := range c.Extra {
 		fs.Put(e, scen.Garbage(r.Seed, 400+i, 9))
+	}
+	if c.Stale != 0 {
+		if other, oerr := scen.GetP2(c.Cfg, r.Seed+7777); oerr == nil && other.Ref.SetID != s.Ref.SetID {
+			volRe := regexp.MustCompile(`\.vol([0-9]+)\+([0-9]+)\.par2$`)
+			for i, p := range s.RecFiles {
+				m := volRe.FindStringSubmatch(p)
+				if m == nil || i >= len(other.RecFiles) {
+					continue
+				}
+				lo, _ := strconv.Atoi(m[1])
+				n, _ := strconv.Atoi(m[2])
+				name := fmt.Sprintf(".vol%0*d+%0*d.par2", len(m[1]), lo, len(m[2]), n+2)
+				if c.Stale == 2 && lo > 0 {
+					name = fmt.Sprintf(".vol%0*d+%0*d.par2", len(m[1]), lo-1, len(m[2]), n+1)
+				}
+				fs.Put(strings.TrimSuffix(p, m[0])+name, other.FS0.Files[other.RecFiles[i]])
+			}
+		}
+	}
+	if c.List == 1 {
+		fs.Order = func(m []string) []string {
+			out := append([]string{}, m...)
+			sort.Sort(sort.Reverse(sort.StringSlice(out)))
+			return out
+		}
 	}
 	if c.PriorGen != 0 {
 		tw := c.Cfg
